@@ -61,6 +61,7 @@ type typedPkg struct {
 	isType        func(metav1.Object) bool
 	build         func(context.Context, logutil.Log, client.Client) (*tCtl, error)
 	newController func(context.Context, logutil.Log, kubernetes.Interface, string) (*tCtl, error)
+	builderReuse  func() []string
 }
 
 var typedPkgs []*typedPkg
@@ -785,6 +786,146 @@ func e18RestCase(pkg, ns string) Case {
 	}}
 }
 
+
+// e18BuilderCase: a typed handler builder used again after Create() behaves as the
+// core's builder does: handlers already created keep their callbacks.
+func e18BuilderCase(pkg string) Case {
+	id := fmt.Sprintf("E18/handler-builder-reuse/%s", pkg)
+	return Case{ID: id, Desc: map[string]interface{}{"package": pkg, "what": "handler builder reused after Create()"}, Run: func(r *Res) {
+		p := typedPkgByName(pkg)
+		var ref []string
+		note := func(s string) func(metav1.Object) { return func(metav1.Object) { ref = append(ref, s) } }
+		hb := kcache.BuildHandler().OnCreate(note("first")).OnDelete(note("common-delete"))
+		h1 := hb.Create()
+		hb = hb.OnCreate(note("second"))
+		h2 := hb.Create()
+		o := p.newObj("n0", "a", nil).(metav1.Object)
+		h1.OnCreate(o)
+		h2.OnCreate(o)
+		h1.OnDelete(o)
+		h2.OnDelete(o)
+		ref = append(ref, "u-first", "u-second", "u-common-update")
+		got := p.builderReuse()
+		r.Add("callback-comparisons", 1)
+		if fmt.Sprint(got) != fmt.Sprint(ref) {
+			r.V("C20", "callbacks-differ", "%s: a handler builder is given a new OnCreate after Create(); handlers created before and after are then invoked: the typed builders call %v, the core's builder (and a unitary builder behaving alike) calls %v: a handler created earlier was rewired", pkg, got, ref)
+		}
+		r.Key(id)
+	}}
+}
+
+// e18UnreadCloseCase: subscriptions closed by their owner while events sit
+// unread in them: on the typed side as on the untyped side Done() closes, the
+// Events() channel is closed behind what was buffered and nothing is left behind.
+func e18UnreadCloseCase(pkg string, seed uint64, n int) Case {
+	id := fmt.Sprintf("E18/closed-with-unread-events/%s/%d/%d", pkg, seed, n)
+	return Case{ID: id, Desc: map[string]interface{}{"package": pkg, "seed": seed, "n": n}, Bubble: true, Run: func(r *Res) {
+		p := typedPkgByName(pkg)
+		rng := kit.NewRng(kit.Mix(seed, uint64(n)+1890+kit.HashStr(pkg)))
+		core := kit.NewCore(&kit.Plan{Seed: rng.U64(), PYield: 100, PSleep: 20, MaxSleep: 50 * time.Microsecond})
+		log := kit.NewLog(core)
+		srv := kit.NewServer(core, p.newList)
+		ctx, cancel := ctxWithCancel()
+		defer cancel()
+		tc, err := p.build(ctx, log, srv)
+		if err != nil {
+			r.V("C20", "typed-build-error", "%v", err)
+			return
+		}
+		uc0, err := kcache.NewController(ctx, log, srv)
+		if err != nil {
+			r.Inc(err.Error())
+			return
+		}
+		uc := untypedCtl(uc0, nil)
+		if !waitCh(tc.ready, virtBound) || !waitCh(uc.ready, virtBound) {
+			r.Inc("controllers not ready")
+			return
+		}
+		core.Barrier()
+		baseline := kit.CensusKeys(kit.Census())
+		for round := 0; round < 3; round++ {
+			type side struct {
+				name string
+				sub  *tSub
+			}
+			var sides []side
+			for _, c := range []struct {
+				name string
+				ctl  *tCtl
+			}{{"typed", tc}, {"untyped", uc}} {
+				sub, err := c.ctl.subscribe()
+				if err != nil {
+					r.V("C20", "subscribe-error", "%s: %v", c.name, err)
+					return
+				}
+				sides = append(sides, side{c.name, sub})
+			}
+			core.Barrier()
+			k := 1 + rng.Intn(6)
+			if round == 2 {
+				k = kcache.EventBufsiz + 30
+			}
+			for i := 0; i < k; i++ {
+				srv.Put(p.newObj("n0", fmt.Sprintf("x%d", i%5), map[string]string{"l": "x"}))
+			}
+			core.Barrier()
+			for _, sd := range sides {
+				sd.sub.close()
+			}
+			held := map[string]int{}
+			for _, sd := range sides {
+				if !waitCh(sd.sub.done, virtBound) {
+					r.V("C20", "lifecycle-differs", "%s side of %s: a subscription closed with %d unread events never becomes done", sd.name, pkg, k)
+					return
+				}
+			}
+			// a consumer that stops at Done() and never looks at Events() again must not
+			// keep anything alive
+			core.Barrier()
+			if mid := kit.CensusKeys(kit.Census()); !equalStrings(baseline, mid) {
+				r.V("C20", "lifecycle-differs", "%s: subscriptions with %d unread events were closed on both sides and are done; without anybody draining their Events() the library goroutine census is %d (was %d): left behind: %v", pkg, k, len(mid), len(baseline), diffStrings(mid, baseline))
+				return
+			}
+			for _, sd := range sides {
+				ch := sd.sub.start()
+				drained := make(chan int, 1)
+				go func() {
+					c := 0
+					for range ch {
+						c++
+					}
+					drained <- c
+				}()
+				select {
+				case c := <-drained:
+					held[sd.name] = c
+				case <-time.After(virtBound):
+					r.V("C20", "lifecycle-differs", "%s side of %s: a subscription was closed with %d unread events; its Done() is closed but its Events() channel is never closed behind the buffered events", sd.name, pkg, k)
+					return
+				}
+			}
+			core.Barrier()
+			r.Add("closed-with-unread-events-checks", 1)
+			after := kit.CensusKeys(kit.Census())
+			if !equalStrings(baseline, after) {
+				r.V("C20", "lifecycle-differs", "%s: after subscriptions with %d unread events were closed on both sides, the library goroutine census is %d (was %d): left behind: %v", pkg, k, len(after), len(baseline), diffStrings(after, baseline))
+				return
+			}
+			if k > kcache.EventBufsiz && held["typed"] < kcache.EventBufsiz {
+				r.V("C20", "overflow-lost-too-much", "%s: the typed subscription closed after %d unread events still held %d (< %d)", pkg, k, held["typed"], kcache.EventBufsiz)
+			}
+		}
+		tc.close()
+		uc.close()
+		waitCh(tc.done, virtBound)
+		waitCh(uc.done, virtBound)
+		cancel()
+		core.Barrier()
+		r.Key(id)
+	}}
+}
+
 func init() {
 	register("E18", func(tier string, seed uint64) []Case {
 		var cases []Case
@@ -810,6 +951,12 @@ func init() {
 		for _, p := range pk {
 			for i := 0; i < tierPick(tier, 1, 12); i++ {
 				cases = append(cases, e18TailCase(p, seed, i))
+			}
+		}
+		for _, p := range pk {
+			cases = append(cases, e18BuilderCase(p))
+			for i := 0; i < tierPick(tier, 1, 10); i++ {
+				cases = append(cases, e18UnreadCloseCase(p, seed, i))
 			}
 		}
 		// the eight generated joins (and the double join) as instances of the join
